@@ -110,7 +110,7 @@ Section SortFacts.
       assert (Hab : a = b).
       { assert (Hb : In b (a :: t1)) by (eapply Permutation_in; [apply Permutation_sym; exact Hp | left; reflexivity]).
         assert (Ha : In a (b :: t2)) by (eapply Permutation_in; [exact Hp | left; reflexivity]).
-        destruct Hb as [Hb|Hb]. symmetry; exact Hb.
+        destruct Hb as [Hb|Hb]. exact Hb.
         destruct Ha as [Ha|Ha]. symmetry; exact Ha.
         rewrite Forall_forall in Hall1, Hall2.
         apply Hanti. left; reflexivity. right; exact Hb. apply Hall1; exact Hb. apply Hall2; exact Ha. }
